@@ -6,6 +6,7 @@ All on the fields returned by the public call at points on a circle around the c
   r2d.shock        for each shock, from (M1, gamma, p2/p1): density ratio, downstream Mach number, turning
                    angle (theta-beta-M) and the shock's *position*, located by bisection on the polar angle of
                    the returned fields, equal to upstream flow angle -/+ beta
+  r2d.fan          (also: the state at an interior ray asked for alone equals its state in the 73-point scan)
   r2d.fan          isentropy and constant total enthalpy across each fan (end states and interior points),
                    turning = nu(M2) - nu(M1) with the true Prandtl-Meyer function, and every interior ray
                    a characteristic: polar angle = flow angle -/+ Mach angle
@@ -43,6 +44,10 @@ def gen(rng, i, tier):
     b, t = st(aB), st(aT)
     if i % 5 == 0:
         t[4] = b[4]
+    if i % 6 == 4:
+        # strong waves: one stream at 30 times the pressure of the other (deep fans, strong shocks)
+        k = 30.0 if rng.random() < 0.5 else 1.0 / 30.0
+        t[0] = b[0] * k * uni(rng, 0.5, 2.0)
     if i % 10 == 9:
         # weak waves: star pressure within 1e-8 .. 1e-3 of the initial pressures (the classification of a wave as shock
         # or fan is decided by which side of an initial pressure the star pressure lies)
@@ -160,6 +165,15 @@ def run(ctx, p):
                 dev = float(np.max(np.abs(ray - phis[inside])))
                 ctx.observe("r2d.fan", name, dev <= 1e-6, branch="interior rays are characteristics " + br, measure=dev, tol=1e-6,
                             detail=dict(det, n=int(inside.sum())))
+                # the state at an interior ray does not depend on which other rays were asked for: three of them alone
+                idx = np.where(inside)[0]
+                pick = idx[[0, len(idx) // 2, -1]] if len(idx) >= 3 else idx
+                dev1 = 0.0
+                for k_ in pick:
+                    alone = one(ctx, s, float(phis[k_]))
+                    dev1 = max(dev1, abs(alone["pressure"] - F["pressure"][k_]) / F["pressure"][k_], abs(alone["Mach"] - F["Mach"][k_]) / F["Mach"][k_])
+                ctx.observe("r2d.fan", name, dev1 <= 1e-8, branch="interior state alone = in the scan " + br, measure=dev1, tol=1e-8,
+                            detail=dict(det, rays=[float(phis[k_]) for k_ in pick], pressure_ratio_across_fan=float(S["pressure"] / p0)))
             else:
                 ctx.count("fan_without_interior_sample")
 
